@@ -1,20 +1,20 @@
-use rsdd::serialize::LogicalSExpr;
-fn try_parse(s: &str) {
-    let r = std::panic::catch_unwind(|| serde_sexpr::from_str::<LogicalSExpr>(s).map(|_| ()));
-    println!("{:50} {:?}", s.replace('\n', "\\n").replace('\t', "\\t"), r.map_err(|_| "PANIC"));
-}
+use rsdd::builder::bdd::RobddBuilder;
+use rsdd::builder::cache::AllIteTable;
+use rsdd::builder::BottomUpBuilder;
+use rsdd::repr::{BddPtr, DDNNFPtr, VarLabel, VarOrder, WmcParams};
+use rsdd::util::semirings::FiniteField;
 fn main() {
-    std::panic::set_hook(Box::new(|_| {}));
-    try_parse("(And (Var X) (Var Y))\n");
-    try_parse("\n(And (Var X) (Var Y))");
-    try_parse("\t(And (Var X) (Var Y))  ");
-    try_parse("(And\n(Var X)\n(Var Y))");
-    try_parse("(And \n (Var X) \t (Var Y))");
-    try_parse("(Not (Not (Var X)))");
-    try_parse("(And (Var B) (Var a))");
-    try_parse("(And (Var 10) (Var 9))");
-    try_parse("(Var x)");
-    try_parse("(Var  x)");
-    try_parse("(Var\nx)");
-    try_parse("(Var x )");
+    for n in [16usize, 20, 22, 24] {
+        let b = RobddBuilder::<AllIteTable<BddPtr>>::new(VarOrder::linear_order(n));
+        let x = |i: usize| b.var(VarLabel::new_usize(i), true);
+        let f = b.or(b.or(b.and(x(0), x(7)), b.negate(x(n - 1))), x(13));
+        let t = std::time::Instant::now();
+        let s = b.smooth(f, n);
+        let mut ones = WmcParams::<FiniteField<{ rsdd::constants::primes::U64_LARGEST }>>::default();
+        for v in 0..n {
+            ones.set_weight(VarLabel::new_usize(v), FiniteField::new(1), FiniteField::new(1));
+        }
+        let c = s.unsmoothed_wmc(&ones).value();
+        println!("n={} count={} nodes={} in {:?}", n, c, s.count_nodes(), t.elapsed());
+    }
 }
